@@ -21,7 +21,7 @@ from typing import Any, Dict, List, Optional, Sequence, Set, Tuple
 
 from engine.fold import Folder
 from engine.mathobj import NOTIMPL, Dispatcher, Obj, ang_input, mat_input, vec_input
-from engine.model import AnalysisError, Program, base_names, dotted, mro, walk_no_nested
+from engine.model import resolve_method, AnalysisError, Program, base_names, dotted, mro, walk_no_nested
 from engine.pyx import PyxFile
 from rules.c04 import extract_forms
 
@@ -652,6 +652,19 @@ def run(ctx: Any, prog: Program) -> None:
         fn = mt.func(f'{cname}.{mname}')
         rets = [s for s in walk_no_nested(fn) if isinstance(s, ast.Return) and isinstance(s.value, ast.JoinedStr)]
         if len(rets) != 1:
+            # delegation (`return self.__format__('')`): look at what the delegate does with the components
+            dels = [r for r in walk_no_nested(fn) if isinstance(r, ast.Return) and isinstance(r.value, ast.Call) and isinstance(r.value.func, ast.Attribute) and dotted(r.value.func.value) == 'self']
+            if len(dels) == 1:
+                target = resolve_method(mt, cname, dels[0].value.func.attr)
+                if target is not None:
+                    tfn = target[1]
+                    via_ff = {a.attr for c in ast.walk(tfn) if isinstance(c, ast.Call) and (dotted(c.func) or '').endswith('format_float') for a in ast.walk(c) if isinstance(a, ast.Attribute) and a.attr in fields}
+                    via_builtin = {a.attr for c in ast.walk(tfn) if isinstance(c, ast.Call) and dotted(c.func) == 'format' for a in ast.walk(c) if isinstance(a, ast.Attribute) and a.attr in fields} | \
+                                  {a.attr for v in ast.walk(tfn) if isinstance(v, ast.FormattedValue) and v.format_spec is not None for a in ast.walk(v.value) if isinstance(a, ast.Attribute) and a.attr in fields}
+                    if via_builtin - via_ff:
+                        ctx.check('C05.G5', False, mt, dels[0], f'{cname}.{mname} delegates to {target[0]}.{dels[0].value.func.attr}, which formats {sorted(via_builtin - via_ff)} with format()/a format spec instead of format_float(): '
+                                  "the '-0' correction (and the fixed 6 places) of format_float is bypassed, str(Vec(-1e-9, 0, 0)) becomes '-0 0 0'", func=f'{cname}.{mname}', text=f'{cname}.{mname} components')
+                        continue
             raise AnalysisError(f'{cname}.{mname}: expected a single f-string return')
         seen = []
         ok = True
@@ -788,6 +801,7 @@ def check_format_float(ctx: Any, mod: Any, ff: Any) -> None:
 
 
 MUTANTS = [
+    {'id': 'vec_str_through_format_spec', 'file': 'math.py', 'find': "        return f'{format_float(self._x)} {format_float(self._y)} {format_float(self._z)}'\n\n    def __format__(self, format_spec: str) -> str:", 'replace': "        return self.__format__('.6f')\n\n    def __format__(self, format_spec: str) -> str:", 'expect': 'C05.G5'},
     {'id': 'imul_range_guard_inclusive', 'file': 'math.py', 'find': "            self._pitch = self._pitch * other % 360.0 % 360.0\n            self._yaw = self._yaw * other % 360.0 % 360.0\n            self._roll = self._roll * other % 360.0 % 360.0\n            return self", 'replace': "            pitch = self._pitch * other\n            yaw = self._yaw * other\n            roll = self._roll * other\n            if min(pitch, yaw, roll) < 0.0 or max(pitch, yaw, roll) >= 360.0:\n                pitch = pitch % 360.0 % 360.0\n                yaw = yaw % 360.0 % 360.0\n                roll = roll % 360.0 % 360.0\n            self._pitch = pitch\n            self._yaw = yaw\n            self._roll = roll\n            return self", 'expect': None},
     {'id': 'imul_normalised_through_locals', 'file': 'math.py', 'find': "            self._pitch = self._pitch * other % 360.0 % 360.0\n            self._yaw = self._yaw * other % 360.0 % 360.0\n            self._roll = self._roll * other % 360.0 % 360.0\n            return self", 'replace': "            pitch = self._pitch * other % 360.0 % 360.0\n            yaw = self._yaw * other % 360.0 % 360.0\n            roll = self._roll * other % 360.0 % 360.0\n            self._pitch = pitch\n            self._yaw = yaw\n            self._roll = roll\n            return self", 'expect': None},
     {'id': 'imul_normalised_only_when_out_of_range', 'file': 'math.py', 'find': "            self._pitch = self._pitch * other % 360.0 % 360.0\n            self._yaw = self._yaw * other % 360.0 % 360.0\n            self._roll = self._roll * other % 360.0 % 360.0\n            return self", 'replace': "            pitch = self._pitch * other\n            yaw = self._yaw * other\n            roll = self._roll * other\n            if min(pitch, yaw, roll) < 0.0 or max(pitch, yaw, roll) > 360.0:\n                pitch = pitch % 360.0 % 360.0\n                yaw = yaw % 360.0 % 360.0\n                roll = roll % 360.0 % 360.0\n            self._pitch = pitch\n            self._yaw = yaw\n            self._roll = roll\n            return self", 'expect': 'C05.G1'},
